@@ -204,8 +204,11 @@ def build_summaries(results):
         pv = r.get("prov")
         if pv:
             sm = {path: (fl if fl == "foreign" else (bool(fl[0]), bool(fl[1]), fl[2] if len(fl) > 2 else None))
-                  for path, fl in pv.items()}
-            if any(fl != "foreign" for fl in sm.values()):
+                  for path, fl in pv.items() if path != "__lensrc__"}
+            ls = pv.get("__lensrc__")
+            if any(fl != "foreign" for fl in sm.values()) or ls:
+                if ls:
+                    sm["__lensrc__"] = tuple(sorted(ls, key=str))
                 out[r["root"]] = sm
     return out
 
@@ -354,6 +357,12 @@ def analyze_crate(F, depth=2, budget=20000, jobs=None, max_rounds=5, log=None, a
             a, b = summaries[fn], confirm.get(fn) or {}
             keep = {}
             for path, fl in a.items():
+                if path == "__lensrc__":
+                    if b.get(path) is not None and set(b[path]) <= set(fl):
+                        keep[path] = fl
+                    else:
+                        dropped += 1
+                    continue
                 fb = b.get(path)
                 if fl != "foreign" and fb not in (None, "foreign") and (not fl[0] or fb[0]) and (not fl[1] or fb[1]) \
                         and (fl[2] is None or fl[2] == fb[2]):
